@@ -380,6 +380,17 @@ func c04ConcScenarios(up *world.Upstream) []*concScenario {
 }
 
 // concReplayFor dispatches a recorded concurrent case of one of the four lists.
+// concEvery: the packages scheduled at every statement, per property.
+var concEvery = map[string][]string{
+	"C02": {"pkg/encryption", "pkg/sessions/cookie", "pkg/sessions/persistence", "pkg/apis/sessions", "pkg/cookies"},
+	"C04": {"pkg/apis/middleware", "pkg/providers/oidc", "pkg/middleware"},
+	"C06": {"pkg/app/redirect", "pkg/app/pagewriter"},
+	"C08": {"pkg/util"},
+	"C09": {"pkg/encryption", "pkg/sessions/cookie", "pkg/cookies"},
+	"C16": {"pkg/requests/util", "pkg/cookies"},
+	"C18": {"pkg/cookies", "pkg/sessions/cookie"},
+}
+
 func concReplayFor(c *Ctx, id string, raw json.RawMessage) (string, bool) {
 	var cr0 concReplay
 	if json.Unmarshal(raw, &cr0) != nil || cr0.Kind != concKind {
@@ -400,7 +411,7 @@ func concReplayFor(c *Ctx, id string, raw json.RawMessage) (string, bool) {
 	case "C18":
 		scs = c18ConcScenarios(up)
 	}
-	return concReplayOne(c, id, scs, cr0), true
+	return concReplayOne(c, id, scs, cr0, concEvery[id]...), true
 }
 
 func concRunFor(c *Ctx, id string) {
@@ -408,15 +419,15 @@ func concRunFor(c *Ctx, id string) {
 	defer up.Close()
 	switch id {
 	case "C02":
-		concExplore(c, id, c02ConcScenarios(up), 1, 2)
+		concExplore(c, id, c02ConcScenarios(up), 1, 2, concEvery[id]...)
 	case "C04":
-		concExplore(c, id, c04ConcScenarios(up), 1, 2)
+		concExplore(c, id, c04ConcScenarios(up), 1, 2, concEvery[id]...)
 	case "C09":
-		concExplore(c, id, c09ConcScenarios(up), 1, 2)
+		concExplore(c, id, c09ConcScenarios(up), 1, 2, concEvery[id]...)
 	case "C16":
-		concExplore(c, id, c16ConcScenarios(up), 1, 2)
+		concExplore(c, id, c16ConcScenarios(up), 1, 2, concEvery[id]...)
 	case "C18":
-		concExplore(c, id, c18ConcScenarios(up), 1, 2)
+		concExplore(c, id, c18ConcScenarios(up), 1, 2, concEvery[id]...)
 	}
 	world.ResetClock()
 }
